@@ -131,6 +131,13 @@ func NewOperationParameters(pathParams, operationParams openapi3.Parameters, com
 	}
 
 	for _, param := range append(append(openapi3.Parameters{}, pathParams...), operationParams...) {
+		if param == nil || param.Value == nil {
+			ref := ""
+			if param != nil {
+				ref = param.Ref
+			}
+			return zero, fmt.Errorf("parameter %q: the reference is not resolved", ref)
+		}
 		switch param.Value.In {
 		case openapi3.ParameterInPath:
 			p, err := NewRefPathParam(param, components, opts)
